@@ -11,5 +11,13 @@ CONFIG = dict(
         "float printing (dtoa) is an oracle checked per literal; means are computed by Flocq's correctly rounded binary64 division",
         "split records and hash-ordered output are compared as multisets of lines",
     ],
-    explanation="Reference interpretation Spec.emf_docs (JSON documents built from the entry without any string buffers) vs the real formatter's bytes.",
+    explanation="Theorems: the formatter's bytes are the printed documents of the reference interpretation Spec.emf_docs (refinement, any "
+                "formatter state); those documents in terms of the entry for EVERY entry and configuration — the record without per-metric "
+                "dimensions and one record per distinct sorted dimension list, each carrying exactly the metrics with a usable value routed "
+                "to it (once, in entry order), declared unless no-metric; every string in every record with its exact text; timestamp in "
+                "whole epoch milliseconds; observations exact / clamped / means with saturating counts times the multiplicity; skipped "
+                "metrics nowhere. Correspondence: the real formatter's bytes against the printed reference documents (comparison "
+                "reference_documents, a failing input when it differs) and against the mechanism model, incl. call sequences on one "
+                "formatter with shared dimension sets, split entries without global metrics, and a wall-clock window check for entries "
+                "without a timestamp.",
 )
